@@ -381,11 +381,12 @@ func (h *harness) runRing(c *rcase, quiet bool) (violated bool) {
 				var err error
 				switch o.Kind {
 				case "refresh":
-					eps := make([]endpoint.Endpoint, len(o.Eps))
+					eps := callerSlice(len(o.Eps))
 					for i, x := range o.Eps {
 						eps[i] = c.ep(x, nil)
 					}
 					r.sel.Refresh(eps)
+					scribble(eps) // the selector must not share the caller's slice
 				case "add":
 					err = r.sel.Add(c.ep(o.Eps[0], o.RW))
 				case "remove":
@@ -486,8 +487,11 @@ func (h *harness) runRing(c *rcase, quiet bool) (violated bool) {
 				if c.Tag == "reweighted" && got.found && got.idx >= 0 && !contains(r.members, got.idx) {
 					break // reported by oracleReweighted under its own signature
 				}
-				h.violate(c, "C14:wrong-owner:consistenthash.FindInt32",
-					"lookup is not the owner of the least ring point >= key (else of the least point) of the current set",
+				sig, what := "C14:wrong-owner:consistenthash.FindInt32", "lookup is not the owner of the least ring point >= key (else of the least point) of the current set"
+				if got.found && isGarbage(got.ep.Host) {
+					sig, what = "C14:aliased-input:consistenthash.Refresh", "the selector shares the slice its caller passed to Refresh: overwriting that slice afterwards changed the routing"
+				}
+				h.violate(c, sig, what,
 					fmt.Sprintf("history %d key %d: got %s, prescribed %q", hi, k, got, c.U[exp[0]].Host), k, true)
 				violated = true
 				break
